@@ -184,6 +184,24 @@ def build_array(spec, form=0):
             a = DimArray(nested, dims=list(dims))
     elif form == 7:  # (name, labels) pairs with string labels given as a numpy unicode array rather than a list
         a = DimArray(vals, axes=[(d, np.array(l.tolist()) if l.dtype.kind == "O" and len(l) else l) for l, d in zip(labs, dims)])
+    elif form == 8:  # the same requests spelled with tuples instead of lists
+        # (an empty list carries no label dtype: empty axes stay arrays)
+        a = DimArray(vals, axes=tuple((d, tuple(l.tolist()) if len(l) else l) for l, d in zip(labs, dims)))
+    elif form == 9:
+        a = DimArray(vals, axes=tuple(l.tolist() if len(l) else l for l in labs), dims=tuple(dims))
+    elif form == 10:  # an existing DimArray (or its Axes object) handed to the constructor
+        src = DimArray(vals, [Axis(l, d) for l, d in zip(labs, dims)])
+        a = DimArray(src) if len(dims) % 2 else DimArray(vals, axes=src.axes)
+    elif form == 11:  # one-dimensional shortcuts: a single (name, labels) tuple, or labels with dims given as a string
+        if len(dims) != 1:
+            a = DimArray(vals, axes=tuple(Axis(l, d) for l, d in zip(labs, dims)))
+        elif len(labs[0]) % 2:
+            a = DimArray(vals, axes=(dims[0], labs[0]))
+        else:
+            a = DimArray(vals, axes=[labs[0]], dims=dims[0])
+    elif form == 12:  # the array() helper with (name, labels) pairs
+        import dimarray
+        a = dimarray.array(vals, axes=[(d, l) for l, d in zip(labs, dims)])
     else:
         raise ValueError(form)
     a.attrs.update(attrs)
